@@ -54,8 +54,17 @@ func mergeOrderOK(doc, patch, res *jr.Value, path string) string {
 }
 
 func c05Apply(c *core.Ctx, sc *SeqCase, o V5Opts) {
-	want := ref.Eval(sc.Doc, sc.Ops, o.Ref())
+	c05ApplyRef(c, sc, o, o.Ref())
+}
+
+func c05ApplyRef(c *core.Ctx, sc *SeqCase, o V5Opts, ro ref.Opts) {
+	want := ref.Eval(sc.Doc, sc.Ops, ro)
 	res := ApplyV5(sc.DocText, sc.Patch(), o, "")
+	if want.Soft != "" && res.Panic == nil && res.Err != nil {
+		// outside C14's stated domain: an error decides nothing about order
+		c.Count("soft:" + want.Soft + ":library-returns-error")
+		return
+	}
 	if judgeApply(c, sc, o, res, want, cmpMode{ordered: true}) && want.Doc != nil {
 		if want.Doc.Size() >= 4 {
 			c.Nontrivial(sc.Canon(), o.String())
@@ -110,6 +119,57 @@ func init() {
 			{Name: "ordered-sequences", Count: n(50000, 1500000), Run: func(c *core.Ctx, idx int) {
 				o := V5Opts{NegIdx: c.R.Intn(2) == 0, EscapeHTML: c.R.Intn(2) == 0, EnsurePath: c.R.Intn(8) == 0}
 				c05Apply(c, GenSeq(c.R, seqCfg, o.Ref()), o)
+			}},
+			{Name: "ensure-through-null-members", Count: n(10000, 300000), Run: func(c *core.Ctx, idx int) {
+				// EnsurePathExistsOnAdd through object members whose value is null: the member is given a
+				// container as its value (add on an existing member) and must keep its place among its siblings
+				o := V5Opts{NegIdx: true, EscapeHTML: c.R.Intn(2) == 0, EnsurePath: true}
+				ro := o.Ref()
+				ro.NullMemberIsMissing = true
+				np := prof.With(func(p *gen.Profile) { p.Strings = []string{"s"}; p.Numbers = []string{"1.0", "1e400"}; p.ScalarBias = 55; p.Keys = []string{"a", "b", "c", "d", "e", "f", "m~n"} })
+				sc := &SeqCase{Opts: ro}
+				// every third scalar becomes null
+				v := mustParse(np.Root(c.R))
+				k := 0
+				v.Walk("", func(_ string, x *jr.Value) {
+					if x.K != jr.Obj && x.K != jr.Arr {
+						if k%3 == 0 {
+							*x = jr.Value{K: jr.Null}
+						}
+						k++
+					}
+				})
+				sc.DocText = v.String()
+				sc.Doc = mustParse(sc.DocText)
+				e := ref.New(sc.Doc, ro)
+				cfg := *seqCfg
+				cfg.Prof = np
+				for i := 1 + c.R.Intn(4); i > 0; i-- {
+					var nulls []string
+					e.Root.Walk("", func(ptr string, x *jr.Value) {
+						if x.K == jr.Null && ptr != "" {
+							nulls = append(nulls, ptr)
+						}
+					})
+					var op ref.Op
+					var text string
+					if len(nulls) > 0 && c.R.Intn(4) > 0 {
+						pth := nulls[c.R.Intn(len(nulls))] + []string{"/x", "/x/y", "/0", "/-", "/k/0"}[c.R.Intn(5)]
+						op = ref.Op{Kind: "add", Path: pth, Value: mustParse(`"v"`), HasValue: true}
+						text = OpText("add", pth, "", `"v"`, true)
+					} else {
+						op, text = GenOp(c.R, e, &cfg)
+					}
+					sc.Ops = append(sc.Ops, op)
+					sc.OpTexts = append(sc.OpTexts, text)
+					snap := e.Root.Clone()
+					if e.Step(op) != ref.OK {
+						e.Root = snap
+						break
+					}
+				}
+				c.Count("ensure-through-null:cases")
+				c05ApplyRef(c, sc, o, ro)
 			}},
 			{Name: "same-name-churn", Count: n(10000, 300000), Run: func(c *core.Ctx, idx int) {
 				// remove/add/replace/move of the same few names of one object
